@@ -10,17 +10,20 @@
 package main
 
 import (
+	"bytes"
 	"encoding/binary"
 	"errors"
 	"fmt"
 	"math"
 	"os"
+	"reflect"
 	"regexp"
 	"strconv"
 	"strings"
 	"unsafe"
 
 	"github.com/Ptt-official-app/go-pttbbs/cache"
+	"github.com/Ptt-official-app/go-pttbbs/ptt"
 	"github.com/Ptt-official-app/go-pttbbs/ptttype"
 	"verifharness/internal/bbsenv"
 	"verifharness/internal/hx"
@@ -37,6 +40,11 @@ var (
 	recSize  = int(ptttype.USEREC_RAW_SZ)
 	moneyOff = int(unsafe.Offsetof(ptttype.USEREC_RAW.Money))
 	moneySz  = int(unsafe.Sizeof(ptttype.USEREC_RAW.Money))
+	levelOff = int(unsafe.Offsetof(ptttype.USEREC_RAW.UserLevel))
+	idOff    = int(unsafe.Offsetof(ptttype.USEREC_RAW.UserID))
+
+	// the record copies the "caller" holds: slot -> the struct ptt.GetUser returned at the last `load`
+	stale = map[int64]*ptttype.UserecRaw{}
 
 	run *hx.Run
 	env *bbsenv.Env
@@ -145,12 +153,75 @@ func observe(u int64) string {
 	return fmt.Sprintf("shm=%s disk=- len=%d shmd=%s rest=%s", shm, len(f), shmDigest(arr), fnv(f))
 }
 
+func observe2(u int64) string {
+	lvl := "-"
+	if f, ok := readFile(); ok {
+		off := recSize*int(u-1) + levelOff
+		if inArr(u) && off+4 <= len(f) {
+			lvl = hx.Hex(f[off : off+4])
+		}
+	}
+	return observe(u) + " lvl=" + lvl
+}
+
+// encode: the serialisation PasswdUpdate writes (binary.Write, little endian).
+func encode(r *ptttype.UserecRaw) []byte {
+	var b bytes.Buffer
+	if err := binary.Write(&b, binary.LittleEndian, r); err != nil {
+		panic(err)
+	}
+	if b.Len() != recSize {
+		panic("c20: a UserecRaw does not serialise to USEREC_RAW_SZ bytes")
+	}
+	return b.Bytes()
+}
+
+// slotName: the user id registered for slot u in the SHM user hash (see setupNames); a name nobody has otherwise.
+func slotName(u int64) *ptttype.UserID_t {
+	id := &ptttype.UserID_t{}
+	if inArr(u) {
+		copy(id[:], fmt.Sprintf("vu%02d", u))
+	} else {
+		copy(id[:], "nouser")
+	}
+	return id
+}
+
+// setupNames loads the SHM user hash once from a .PASSWDS whose slot u belongs to user "vuNN": ptt.GetUser finds
+// the slot through that hash (cache.SearchUserRaw), which no operation of this harness changes afterwards.
+func setupNames() {
+	f := make([]byte, recSize*nSlot)
+	for u := 1; u <= nSlot; u++ {
+		copy(f[recSize*(u-1)+idOff:], slotName(int64(u))[:])
+	}
+	if err := os.WriteFile(ptttype.FN_PASSWD, f, 0o600); err != nil {
+		panic(err)
+	}
+	if err := env.ResetSHM(); err != nil {
+		fmt.Fprintln(os.Stderr, "c20: ResetSHM:", err)
+		os.Exit(2)
+	}
+	for u := int64(0); u <= MAX+1; u++ {
+		got, err := cache.SearchUserRaw(slotName(u), nil)
+		want := u
+		if !inArr(u) {
+			want = 0
+		}
+		if err != nil || int64(got) != want {
+			fmt.Fprintf(os.Stderr, "c20: user hash lookup of slot %d gives %d (%v)\n", u, got, err)
+			os.Exit(2)
+		}
+	}
+}
+
 func errClass(err error) string {
 	switch {
 	case err == nil:
 		return "ok"
 	case errors.Is(err, cache.ErrInvalidUID):
 		return "invalid-uid"
+	case errors.Is(err, ptttype.ErrInvalidUserID):
+		return "invalid-userid"
 	default:
 		return "io"
 	}
@@ -185,14 +256,19 @@ func diskMoney(f []byte, u int64) (int64, bool) {
 
 // frame compares the file with the previous snapshot outside the Money bytes of slot u (u = 0: nothing may change).
 func (p *oracle) frame(i int, line string, f []byte, u int64) {
+	if u == 0 {
+		p.frameRange(i, line, f, -1, -1)
+		return
+	}
+	lo := recSize*int(u-1) + moneyOff
+	p.frameRange(i, line, f, lo, lo+4)
+}
+
+// frameRange: every byte outside [lo, hi) is as in the previous snapshot.
+func (p *oracle) frameRange(i int, line string, f []byte, lo, hi int) {
 	if len(f) != len(p.prevFile) {
 		run.Fail(i, "frame", fmt.Sprintf("%s: .PASSWDS length changed from %d to %d", line, len(p.prevFile), len(f)))
 		return
-	}
-	lo, hi := -1, -1
-	if u != 0 {
-		lo = recSize*int(u-1) + moneyOff
-		hi = lo + 4
 	}
 	for k := range f {
 		if k >= lo && k < hi {
@@ -252,6 +328,86 @@ func (p *oracle) judge(i int, line, kind string, u, m int64, panicked bool, ret 
 			run.Fail(i, "mismatch:arith", fmt.Sprintf("%s returned %d, plain arithmetic says %d", line, ret, p.bal[u]))
 		}
 		return "read"
+	}
+	if kind == "syncquery" || kind == "load" {
+		p.frame(i, line, f, 0)
+		p.frameShm(i, line, arr, 0)
+		if !valid {
+			return "invalid"
+		}
+		if panicked {
+			run.Fail(i, "crash:valid-slot", fmt.Sprintf("%s: panic: %s", line, hx.LastPanic))
+			return "panic"
+		}
+		if errc != "ok" || lastRec == nil {
+			run.Fail(i, "valid-slot-rejected", fmt.Sprintf("%s: valid slot refused (%s)", line, errc))
+			return "refused"
+		}
+		if int64(lastRec.Money) != p.bal[u] {
+			run.Fail(i, "mismatch:arith", fmt.Sprintf("%s: the record carries Money=%d, plain arithmetic says %d", line, lastRec.Money, p.bal[u]))
+		}
+		got := encode(lastRec)
+		base := recSize * int(u-1)
+		for k := 0; k < recSize; k++ {
+			if k >= moneyOff && k < moneyOff+4 {
+				continue
+			}
+			if got[k] != f[base+k] && !(isBoolOff(k) && (got[k] != 0) == (f[base+k] != 0)) {
+				run.Fail(i, "query-record", fmt.Sprintf("%s: byte %d of the returned record is %#02x, .PASSWDS has %#02x", line, k, got[k], f[base+k]))
+				break
+			}
+		}
+		return "read"
+	}
+	if kind == "permupdate" {
+		if !valid {
+			if panicked {
+				run.Fail(i, "crash:invalid-slot", fmt.Sprintf("%s: panic instead of an error: %s", line, hx.LastPanic))
+			} else if errc == "ok" {
+				run.Fail(i, "invalid-slot-accepted", fmt.Sprintf("%s: no error", line))
+			}
+			p.frame(i, line, f, 0)
+			p.frameShm(i, line, arr, 0)
+			return "invalid"
+		}
+		if panicked {
+			run.Fail(i, "crash:valid-slot", fmt.Sprintf("%s: panic: %s", line, hx.LastPanic))
+			return "panic"
+		}
+		shmV := int64(arr[u-1])
+		diskV, dok := diskMoney(f, u)
+		branch := "stale-equal"
+		if m != p.bal[u] {
+			branch = "stale-differs"
+		}
+		if errc != "ok" {
+			key := "valid-slot-rejected"
+			if u == MAX {
+				key = "last-slot"
+			}
+			run.Fail(i, key, fmt.Sprintf("%s: valid slot %d of %d refused (%s)", line, u, MAX, errc))
+		} else {
+			if !dok || shmV != diskV {
+				run.Fail(i, "mismatch:shm-disk", fmt.Sprintf("%s (a whole-record write from a copy carrying Money=%d): Shm.Money=%d but .PASSWDS money=%d", line, m, shmV, diskV))
+			}
+			if shmV != p.bal[u] {
+				run.Fail(i, "mismatch:arith", fmt.Sprintf("%s: Shm.Money=%d, plain arithmetic says %d", line, shmV, p.bal[u]))
+			}
+			// every other byte of the record is the caller's copy (with the new UserLevel)
+			base := recSize * int(u-1)
+			for k := 0; k < recSize && lastSent != nil; k++ {
+				if k >= moneyOff && k < moneyOff+4 {
+					continue
+				}
+				if f[base+k] != lastSent[k] {
+					run.Fail(i, "frame:record", fmt.Sprintf("%s: byte %d of record %d is %#02x, the caller's record has %#02x", line, k, u, f[base+k], lastSent[k]))
+					break
+				}
+			}
+		}
+		p.frameRange(i, line, f, recSize*int(u-1), recSize*int(u))
+		p.frameShm(i, line, arr, 0)
+		return branch
 	}
 	// set / de
 	if !valid {
@@ -329,6 +485,54 @@ func (p *oracle) judge(i int, line, kind string, u, m int64, panicked bool, ret 
 	return branch
 }
 
+// what the last syncquery/load returned, and the bytes of the record the last permupdate handed over (for the oracle)
+var (
+	lastRec  *ptttype.UserecRaw
+	lastSent []byte
+)
+
+// offsets of the bool bytes of a UserecRaw, from the compiled type (reflect)
+var boolList = func() []int {
+	var out []int
+	var walk func(t reflect.Type, base uintptr)
+	walk = func(t reflect.Type, base uintptr) {
+		switch t.Kind() {
+		case reflect.Bool:
+			out = append(out, int(base))
+		case reflect.Array:
+			for k := 0; k < t.Len(); k++ {
+				walk(t.Elem(), base+uintptr(k)*t.Elem().Size())
+			}
+		case reflect.Struct:
+			for k := 0; k < t.NumField(); k++ {
+				walk(t.Field(k).Type, base+t.Field(k).Offset)
+			}
+		}
+	}
+	walk(reflect.TypeOf(ptttype.UserecRaw{}), 0)
+	return out
+}()
+
+func isBoolOff(k int) bool {
+	for _, b := range boolList {
+		if b == k {
+			return true
+		}
+	}
+	return false
+}
+
+func boolCsv() string {
+	ss := make([]string, len(boolList))
+	for i, b := range boolList {
+		ss[i] = strconv.Itoa(b)
+	}
+	if len(ss) == 0 {
+		return "-"
+	}
+	return strings.Join(ss, ",")
+}
+
 // ---- executing one op line on the real code -------------------------------------------------
 
 func fill(seed uint64, n int) []byte {
@@ -378,6 +582,7 @@ func doReset(ws []string) (string, string) {
 		_ = os.Remove(ptttype.FN_PASSWD)
 		cache.Shm.Shm.Money = arr
 		P = oracle{have: true, judged: false}
+		stale = map[int64]*ptttype.UserecRaw{}
 		P.snapshot()
 		return fmt.Sprintf("ok len=- shmd=%s rest=-", shmDigest(arr)), "reset:nofile"
 	}
@@ -395,6 +600,7 @@ func doReset(ws []string) (string, string) {
 	}
 	cache.Shm.Shm.Money = arr
 	P = oracle{have: true, judged: n == nSlot && tail == 0}
+	stale = map[int64]*ptttype.UserecRaw{}
 	if P.judged {
 		synced := true
 		for s := 1; s <= nSlot; s++ {
@@ -429,7 +635,7 @@ func exec(line string) (out, label string, res *result) {
 	}
 	switch {
 	case ws[0] == "layout" && len(ws) == 1:
-		return fmt.Sprintf("max=%d sz=%d off=%d fsz=%d", MAX, recSize, moneyOff, moneySz), "layout", nil
+		return fmt.Sprintf("max=%d sz=%d off=%d fsz=%d lvl=%d bools=%s", MAX, recSize, moneyOff, moneySz, levelOff, boolCsv()), "layout", nil
 	case ws[0] == "reset" && len(ws) == 6:
 		o, l := doReset(ws)
 		return o, l, nil
@@ -456,6 +662,61 @@ func exec(line string) (out, label string, res *result) {
 		}
 		r.ret, r.errc = int64(v), errClass(err)
 		return fmt.Sprintf("%d %s %s", v, r.errc, observe(u)), ws[0] + ":" + slotClass(u), r
+	case (ws[0] == "syncquery" || ws[0] == "load") && len(ws) == 2:
+		u, ok := parseI32(ws[1])
+		if !ok || !P.have {
+			return "bad-op", "bad-op", nil
+		}
+		r := &result{kind: ws[0], u: u}
+		var rec *ptttype.UserecRaw
+		var err error
+		lastRec = nil
+		o := hx.CallSync(func() string { rec, err = ptt.GetUser(slotName(u)); return "" })
+		if o == "PANIC" {
+			r.panicked = true
+			return "PANIC money=- recd=- " + observe2(u), ws[0] + ":" + slotClass(u), r
+		}
+		r.errc = errClass(err)
+		if err != nil || rec == nil {
+			return fmt.Sprintf("%s money=- recd=- %s", r.errc, observe2(u)), ws[0] + ":" + slotClass(u), r
+		}
+		lastRec = rec
+		if ws[0] == "load" {
+			cp := *rec
+			stale[u] = &cp
+		}
+		b := encode(rec)
+		r.ret = int64(rec.Money)
+		return fmt.Sprintf("ok money=%d recd=%s %s", rec.Money, fnv(b[:moneyOff], b[moneyOff+4:]), observe2(u)), ws[0] + ":" + slotClass(u), r
+	case ws[0] == "permupdate" && len(ws) == 4:
+		u, ok1 := parseI32(ws[1])
+		m, ok2 := parseI32(ws[2])
+		perm, ok3 := parseNat(ws[3], 10)
+		if !ok1 || !ok2 || !ok3 || perm > math.MaxUint32 || !P.have {
+			return "bad-op", "bad-op", nil
+		}
+		r := &result{kind: "permupdate", u: u, m: m}
+		cp := stale[u]
+		if cp == nil {
+			cp = &ptttype.UserecRaw{}
+			stale[u] = cp
+		}
+		cp.Money = int32(m)
+		sent := *cp
+		sent.UserLevel = ptttype.PERM(perm)
+		lastSent = encode(&sent)
+		var got ptttype.PERM
+		var err error
+		o := hx.CallSync(func() string {
+			got, err = ptt.SetUserPerm(&ptttype.UserecRaw{}, ptttype.UID(u), cp, ptttype.PERM(perm))
+			return ""
+		})
+		if o == "PANIC" {
+			r.panicked = true
+			return "PANIC - " + observe2(u), "permupdate:" + slotClass(u), r
+		}
+		r.ret, r.errc = int64(got), errClass(err)
+		return fmt.Sprintf("%d %s %s", got, r.errc, observe2(u)), "permupdate:" + slotClass(u), r
 	case ws[0] == "get" && len(ws) == 2:
 		u, ok := parseI32(ws[1])
 		if !ok || !P.have {
@@ -504,9 +765,11 @@ func main() {
 		os.Exit(2)
 	}
 	defer env.Close()
+	setupNames()
 	run.Rule = "histories `reset; ops` on a generated .PASSWDS of MAX_USERS records (LCG filler, per-slot money) with the SHM money array set per slot. " +
 		"single-op shapes enumerated smallest first: slots {1,2,MAX-1,MAX,0,-1,MAX+1,int32 limits} x start balances {0,1,1000,2^31-2,2^31-1,-1,-1000,-2^31} x {set,de} x amounts {0,+-1,+-b,+-(b+1),2^31-1-b,2^31-b (overflow),int32 limits}, each followed by get; " +
 		"random histories of 3..40 ops with amounts chosen relative to the current balance (floor, exact, near-limit, rare overflow), unsynced and negative starts; " +
+		"whole-record writes: `permupdate u staleMoney perm` = ptt.SetUserPerm with the record kept at the last `load u` (a zero record otherwise) whose Money is set to staleMoney first, after credits/debits/sets, on all slot classes; `syncquery`/`load` = ptt.GetUser; " +
 		"malformed stream: missing/short/long/torn .PASSWDS (recorded, not judged), ill-formed op lines. nontrivial = set/de/get that reached the real function; overflow and MoneyOf(invalid) cases are recorded and compared with the model, not judged"
 	if run.Replay != "" {
 		for _, l := range hx.ReplayOps(run.Replay) {
